@@ -694,6 +694,47 @@ theorem csv_as_rows_inferred (num : String → Option Rat) (header body : List S
       = fromEdgeList (intOfNum num) (tuplesOf num (body.map (splitAt (['\t', ',', ';', ' '].getD k ' ')))) f :=
   fromCsv_inferred _ num header body a f k hk hgiven hlay hh hclean hrs hne hshape hunique hint
 
+/-- **csv_as_rows, adjacency-list layout.** With `data_structure='adjacency_list'`, `from_csv` is
+    `from_adjacency_list` of the rows that `csv.reader` returns for the lines that are not comments (a blank line
+    is a node without neighbours), for every file, delimiter and flag combination. -/
+theorem csv_adjacency_list_as_rows (num : String → Option Rat) (lines : List String) (a : CsvArgs) (f : Flags)
+    (h : a.layout = some .adjacencyList) :
+    fromCsv num lines a f
+      = fromAdjacencyList (intOfNum num)
+          ((csvRows (csvDelimiter lines a) (dataLines a.comments lines)).map (·.map Ident.str)) f := by
+  unfold fromCsv fromCsvWith fromAdjacencyList fromEdgeList
+  simp only [h, Option.getD_some, List.length_map]
+  congr 2
+  rw [List.zip_map_right, List.map_map]
+  rfl
+
+/-- **csv_as_rows, adjacency-dict layout.** With `data_structure='adjacency_dict'` and no empty row, `from_csv`
+    is `from_adjacency_list` of the dictionary {first field: other fields} of the rows (a repeated key keeps its
+    first position and its last list, as a Python dict does). -/
+theorem csv_adjacency_dict_as_rows (num : String → Option Rat) (lines : List String) (a : CsvArgs) (f : Flags)
+    (h : a.layout = some .adjacencyDict)
+    (hne : ∀ r ∈ csvRows (csvDelimiter lines a) (dataLines a.comments lines), r ≠ []) :
+    fromCsv num lines a f
+      = fromAdjacencyDict (intOfNum num)
+          (((csvRows (csvDelimiter lines a) (dataLines a.comments lines)).map (·.headD "")).eraseDups.map fun k =>
+            (Ident.str k, (((csvRows (csvDelimiter lines a) (dataLines a.comments lines)).reverse.find?
+              (fun r => r.headD "" = k)).getD []).drop 1 |>.map Ident.str)) f := by
+  unfold fromCsv fromCsvWith fromAdjacencyDict fromEdgeList
+  simp only [h, Option.getD_some]
+  have : (csvRows (csvDelimiter lines a) (dataLines a.comments lines)).any (fun r => r.isEmpty) = false := by
+    rw [List.any_eq_false]
+    intro r hr
+    have := hne r hr
+    cases r with
+    | nil => exact absurd rfl this
+    | cons _ _ => simp
+  simp only [this, Bool.false_eq_true, if_false]
+
+/-- `from_adjacency_list` on a dict is `from_edge_list` on the (key, neighbour) pairs, in insertion order -/
+theorem adjacency_dict_as_edges (parse : String → Option Int) (adj : List (Ident × List Ident)) (f : Flags) :
+    fromAdjacencyDict parse adj f
+      = fromEdgeList parse (adj.flatMap fun r => r.2.map fun j => (r.1, j, .absent)) f := rfl
+
 /-- a concrete file meeting the hypotheses: one comment line, two rows `a,b,2` / `b,c,0.5` -/
 example : CleanFile ',' (lastComment '#' ["# two edges"]) ['#', '%'] ["# two edges"] ["a,b,2", "b,c,0.5"] ∧
     (∀ s ∈ ["a,b,2", "b,c,0.5"], rstrip s = s) ∧ (∀ s ∈ ["a,b,2", "b,c,0.5"], (splitAt ',' s).length = 3) ∧
@@ -729,17 +770,22 @@ theorem scan_header_clean (delims comments : List Char) (nScan : Nat) (header bo
 
 open SkNet.GraphML in
 /-- **graphml_preserves.** When `from_graphml` returns, (1) the matrix is square of order the number of node
-    elements and the names are the node ids in document order (absent for canonical node ids); (2) every edge
-    element is read as one resolved edge — its end points are the numbers of the nodes named by `source` /
-    `target`, its weight is its `<data>` for the weight key, else the declared default, else 1, it is undirected
-    iff its own `directed` attribute is not "true", or it has none and the graph's `edgedefault` is
-    "undirected" — with both end points inside the matrix; (3) entry (i, j) collects exactly the weights of
-    the edges i → j and of the undirected edges j → i (summed; `or`-ed when no weight key makes them boolean). -/
+    elements and the names are the node ids in document order (absent for canonical node ids); (2) the edge
+    elements are read, one by one, as resolved edges in the sense of `ReadsAs` — a clause-by-clause statement
+    about the document: end points = positions of the `source` / `target` ids among the node ids (or the number
+    in `n<k>` for canonical ids), weight = declared default if no `<data>` carries the weight key, else the
+    converted text of the last one that does, undirected iff own `directed` ≠ "true" or absent with
+    `edgedefault = "undirected"` — all end points inside the matrix; (3) entry (i, j) collects exactly the
+    weights of the edges i → j and of the undirected edges j → i (summed; `or`-ed for boolean weights).
+    `ws` is the description of the weights read off the `key` elements (`scanKeys`: the last key named
+    `weight_key` that is not declared for nodes; `graphml_no_weight_key` for documents without one).
+    With repeated node ids `nodeIds[e.source]? = some s` still holds but does not determine `e.source`:
+    the reading is unique only when the ids are distinct. -/
 theorem graphml_preserves (num : String → Option Rat) (parseNat : String → Option Nat) (weightKey : String)
     (doc : Doc) (r : Result) (h : fromGraphml num parseNat weightKey doc = .ok r) :
-    ∃ (ws : WeightSpec) (res : List REdge),
-      weightSpec num weightKey doc.keys ⟨.bool, none, 1⟩ = .ok ws ∧
-      AllRel (Resolves num parseNat ws (doc.otherKeys weightKey) doc.naming doc.symmetrize doc.nodeIds) doc.edges res ∧
+    ∃ (ws : WeightSpec) (others : List OtherKey) (res : List REdge),
+      scanKeys num weightKey doc.keys ⟨some .bool, none, 1⟩ [] = .ok (ws, others) ∧
+      AllRel (ReadsAs num parseNat doc.nodeids doc.edgedefault doc.nodeIds ws.id ws.ptype ws.default) doc.edges res ∧
       r.matrix.nRow = doc.nodes.length ∧ r.matrix.nCol = doc.nodes.length ∧
       r.names = (if doc.naming then some doc.nodeIds else none) ∧
       (∀ e ∈ res, e.source < doc.nodes.length ∧ e.target < doc.nodes.length) ∧
@@ -751,32 +797,90 @@ theorem graphml_preserves (num : String → Option Rat) (parseNat : String → O
     · cases h
     · split at h
       · cases h
-      · rename_i ws hws
+      · rename_i ws others hws
         split at h
         · cases h
         · split at h
           · cases h
-          · rename_i ts hts
-            simp only at h
-            split at h
+          · split at h
             · cases h
-            · rename_i hrange
-              cases h
-              obtain ⟨res, hres, hmem, hvals⟩ := triples_sound num parseNat ws (doc.otherKeys weightKey) doc.naming
-                doc.symmetrize doc.nodeIds doc.nodes.length doc.nodes.length ws.kind doc.edges ts hts
-              refine ⟨ws, res, hws, hres, rfl, rfl, rfl, ?_, ?_⟩
-              · intro e he
-                have hm := hmem e he
-                have hr : ts.any (fun t => decide (doc.nodes.length ≤ t.1) || decide (doc.nodes.length ≤ t.2.1)) = false := by
-                  simpa using hrange
-                rw [List.any_eq_false] at hr
-                have := hr _ hm
-                simp only [Bool.or_eq_true, decide_eq_true_eq, not_or] at this
-                omega
-              · intro i j
-                rw [entry_csrOf]
-                unfold Coo.entry GraphML.specEntry
-                rw [hvals]
+            · rename_i ts hts
+              simp only at h
+              split at h
+              · cases h
+              · rename_i hrange
+                cases h
+                obtain ⟨res, hres, hmem, hvals⟩ := triples_sound num parseNat ws others doc.naming
+                  doc.symmetrize doc.nodeIds doc.nodes.length doc.nodes.length ws.kind doc.edges ts hts
+                refine ⟨ws, others, res, hws,
+                  hres.imp (fun c e hce => resolves_readsAs num parseNat doc ws others c e hce), rfl, rfl, rfl, ?_, ?_⟩
+                · intro e he
+                  have hm := hmem e he
+                  have hr : ts.any (fun t => decide (doc.nodes.length ≤ t.1) || decide (doc.nodes.length ≤ t.2.1)) = false := by
+                    simpa using hrange
+                  rw [List.any_eq_false] at hr
+                  have := hr _ hm
+                  simp only [Bool.or_eq_true, decide_eq_true_eq, not_or] at this
+                  omega
+                · intro i j
+                  rw [entry_csrOf]
+                  unfold Coo.entry GraphML.specEntry
+                  rw [hvals]
+
+open SkNet.GraphML in
+/-- without a key named `weight_key` (declared for something else than nodes) the weights are boolean ones:
+    no id, default 1 -/
+theorem graphml_no_weight_key (num : String → Option Rat) (weightKey : String) (keys : List Key)
+    (ws : WeightSpec) (others : List OtherKey)
+    (hno : ∀ k ∈ keys, isWeightKey weightKey k = false)
+    (h : scanKeys num weightKey keys ⟨some .bool, none, 1⟩ [] = .ok (ws, others)) :
+    ws.ptype = some .bool ∧ ws.id = none ∧ ws.default = 1 := by
+  have := scanKeys_no_weight num weightKey keys _ ws [] others hno h
+  rw [this]
+  exact ⟨rfl, rfl, rfl⟩
+
+open SkNet.GraphML in
+/-- **no refusal of a well-formed document.** A document with a graph element carrying `edgedefault`, named
+    nodes that all have an id (and no `<data>`), keys that are read without error, and edges whose end points
+    are declared node ids and whose `<data>` children all carry the weight key with a text of its type, is
+    accepted. -/
+theorem graphml_ok (num : String → Option Rat) (parseNat : String → Option Nat) (weightKey : String)
+    (doc : Doc) (ws : WeightSpec) (others : List OtherKey)
+    (hg : doc.hasGraph = true) (hed : doc.edgedefault.isSome = true) (hnam : doc.naming = true)
+    (hkeys : scanKeys num weightKey doc.keys ⟨some .bool, none, 1⟩ [] = .ok (ws, others))
+    (hnodes : ∀ c ∈ doc.nodes, c.id.isSome = true ∧ c.data = [])
+    (hedges : ∀ c ∈ doc.edges, (∃ s ∈ doc.nodeIds, c.source = some s) ∧ (∃ t ∈ doc.nodeIds, c.target = some t) ∧
+        ∀ d ∈ c.data, some d.1 = ws.id ∧ ∃ w, convert num ws.ptype d.2 = .ok w) :
+    ∃ r, fromGraphml num parseNat weightKey doc = .ok r := by
+  unfold fromGraphml
+  simp only [hg, Bool.not_true, Bool.false_eq_true, if_false]
+  cases hedv : doc.edgedefault with
+  | none => rw [hedv] at hed; cases hed
+  | some ed =>
+    simp only [hkeys]
+    have hids : doc.nodes.any (fun c => c.id.isNone) = false := by
+      rw [List.any_eq_false]
+      intro c hc
+      have := (hnodes c hc).1
+      cases hcid : c.id with
+      | none => rw [hcid] at this; cases this
+      | some _ => simp
+    simp only [hnam, hids, Bool.and_false, Bool.false_eq_true, if_false]
+    rw [nodesData_ok num others doc.nodes (fun c hc => (hnodes c hc).2)]
+    simp only
+    obtain ⟨ts, hts, hlt⟩ := triples_ok num parseNat ws others doc.symmetrize doc.nodeIds doc.edges hedges
+    rw [hts]
+    simp only
+    have hlen : doc.nodeIds.length = doc.nodes.length := by simp [Doc.nodeIds]
+    have hr : ts.any (fun t => decide (doc.nodes.length ≤ t.1) || decide (doc.nodes.length ≤ t.2.1)) = false := by
+      rw [List.any_eq_false]
+      intro t ht
+      have := hlt t ht
+      rw [hlen] at this
+      simp only [Bool.or_eq_true, decide_eq_true_eq, not_or]
+      omega
+    rw [hr]
+    exact ⟨_, rfl⟩
 
 open SkNet.GraphML in
 /-- two named nodes, an undirected default, one weighted edge a–b and one directed edge b → a without data
@@ -784,7 +888,7 @@ open SkNet.GraphML in
 example : ∃ r, fromGraphml (fun s => if s = "3" then some 3 else if s = "2.5" then some (5/2) else none) (fun _ => none)
       "weight"
       { hasGraph := true, edgedefault := some "undirected", nodeids := none,
-        keys := [⟨some "d0", some "weight", some "double", ["2.5"]⟩],
+        keys := [⟨some "d0", some "weight", some "double", some "edge", ["2.5"]⟩],
         children := [{ tag := "node", id := some "a" }, { tag := "node", id := some "b" },
                      { tag := "edge", source := some "a", target := some "b", data := [("d0", "3")] },
                      { tag := "edge", source := some "b", target := some "a", directed := some "true" }] } = .ok r ∧
